@@ -1,5 +1,5 @@
 import JsightVerif.Model.Paste
-import JsightVerif.Proofs.TreeInv
+import JsightVerif.Proofs.BuildProps
 /-
   C10 — PASTE is transparent (shape level).  `expandList` is a hand model of the recursion of
   core/compile_core_paste.go over plain trees (context re-resolution is the C11 model).  What is
@@ -130,35 +130,12 @@ theorem paste_keeps_notPaste (ms : List (Bytes × DT)) (n : Nat) :
             · cases h; exact closeTo_all notPaste _ _ _ h1
             · cases h; exact h1
 
-/-- the stages of `build` a successful run went through -/
-theorem build_stages (roots : List DT) (rootFile : Bytes) (banned : List Kind)
-    (content : Bytes → Bytes) (b : Built) (h : build roots rootFile banned content = .ok b) :
-    ∃ ms dirs fuel ps, collectMacro roots [] [] = .ok (ms, dirs) ∧ pasteList ms fuel dirs {} = .ok ps ∧
-      b.expanded = ps.ctx.forest := by
-  unfold build at h
-  cases hcm : collectMacro roots [] [] with
-  | error e => simp [hcm] at h
-  | ok r =>
-    obtain ⟨ms, dirs⟩ := r
-    simp only [hcm] at h
-    cases hrec : checkRecursion ms with
-    | error e => simp [hrec] at h
-    | ok u =>
-      simp only [hrec] at h
-      cases hp : pasteList ms ((ms.length + 2) * (sizeList roots + 2) * (sizeList roots + 2) + 16) dirs {} with
-      | error e => simp [hp] at h
-      | ok ps =>
-        simp only [hp] at h
-        refine ⟨ms, dirs, _, ps, rfl, hp, ?_⟩
-        repeat' split at h
-        all_goals first | (cases h; rfl) | cases h
-
 /-- **C10 (tied model)**: whenever the build model accepts a project, the forest the catalog is built
     from contains no PASTE directive: every call has been replaced by directives. -/
 theorem C10_expanded_paste_free (roots : List DT) (rootFile : Bytes) (banned : List Kind)
     (content : Bytes → Bytes) (b : Built) (h : build roots rootFile banned content = .ok b) :
     Tree.allList notPaste b.expanded = true := by
-  obtain ⟨ms, dirs, fuel, ps, _, hp, he⟩ := build_stages roots rootFile banned content b h
+  obtain ⟨ms, dirs, fuel, ps, _, _, _, _, hp, he, _, _⟩ := build_stages roots rootFile banned content b h
   rw [he]
   exact forest_all notPaste ps.ctx ((paste_keeps_notPaste ms fuel).1 dirs {} ps rfl hp)
 end Tied
